@@ -91,7 +91,7 @@ def main(chk):
             if n <= 3 or not q:
                 J('SLOW_STOCH', 'scalar', [n, e], tf(n)); J('SLOW_STOCH', 'bar', [n, e], tf(n))
     chk.add(run_jobs(jobs))
-    hs = [k_er_range(2, 6, chk.seed)] + ([k_er_range(2, 7, chk.seed), k_er_range(3, 7, chk.seed)] if not q else [])
+    hs = [k_er_range(2, 6, chk.seed), k_er_range(2, 7, chk.seed, tab=[250000.0, 123456.789, 1.0, 1.0001, 1.0002, 1.0003, 1.0004], tag='_pips')] + ([k_er_range(2, 7, chk.seed), k_er_range(3, 7, chk.seed)] if not q else [])
     chk.add(kani.run_family_set('C07', hs, jobs=4, timeout_s=300 if q else 3600))
     chk.assumptions += ['f64 arithmetic modelled as exact real arithmetic in engine R: the range is proved exactly (no slack needed) in the reals',
                         'positive prices / valid bars; claim applies where the reference denominator is non-zero']
@@ -105,10 +105,10 @@ from vlib.kani import KB, KOps
 ER_TAB = [1.0, 1.0001, 250000.0, 1.0002]
 
 
-def k_er_range(n, t, seed):
+def k_er_range(n, t, seed, tab=None, tag=''):
     """bit-precise: an outlier passing through the window must not leave residue that pushes ER outside [0, 1] (+1e-9)"""
-    tab = ER_TAB[seed % len(ER_TAB):] + ER_TAB[:seed % len(ER_TAB)]
-    b = KB('c07_er_range_n%d_t%d' % (n, t), unwind=n + 4,
+    tab = tab or (ER_TAB[seed % len(ER_TAB):] + ER_TAB[:seed % len(ER_TAB)])
+    b = KB('c07_er_range_n%d_t%d%s' % (n, t, tag), unwind=n + 4,
            family='K:C07 ER n=%d: %d inputs symbolic over an alphabet with one-pip moves and a 2.5e5 outlier, output in [0, 1+1e-9] or NaN (0/0 is C08)' % (n, t),
            bounds=dict(engine='K', indicator='ER', n=n, t=t, inputs='each input symbolic over %r' % (tab,)))
     k = KOps(b)
